@@ -96,4 +96,5 @@ def run(tier):
                     "save_calls": [e["step"] for e in tr["ev"] if e["e"] == "save_call"]})
     rep.extra["scenarios_with_frequency_0"] = sum(1 for s in scs if s["freq"] == 0)
     rep.assumptions = ["listings are taken after wait_until_finished()", "Orbax 0.12.4 as the environment"]
+    rep.extra["machinery_retries"] = list(ckptlib.RETRIES)
     return rep.finish()
